@@ -41,12 +41,12 @@ Ltac t_NPh :=
   end.
 
 Lemma X_upd_worker_keep : forall ext s w f,
-  (forall k, k_task (f k) = k_task k /\ (k_wait (f k) = true -> k_wait k = true)) -> X ext s -> X ext (upd_worker w f s).
+  (forall k, k_task (f k) = k_task k) -> X ext s -> X ext (upd_worker w f s).
 Proof.
-  intros ext s w f Hf HX. destruct (Hf (get_worker s w)) as [E1 E2]. apply X_upd_worker; [| | |exact HX].
+  intros ext s w f Hf HX. pose proof (Hf (get_worker s w)) as E1. apply X_upd_worker; [| | |exact HX].
   - intros t Ht. left. rewrite <- E1. exact Ht.
   - intros t Ht. left. rewrite E1. exact Ht.
-  - intros Hw. rewrite E1. apply (XC _ _ HX). apply E2. exact Hw.
+  - intros _. exact I.
 Qed.
 
 Ltac t_X :=
@@ -64,7 +64,7 @@ Ltac t_X :=
   | |- X _ (set s_invs (fun _ => adel iref_eqb _ _) _) =>
     apply X_invs_del; [match goal with HS : St _ |- _ => destruct HS as [_ [_ [Hn _]]]; exact Hn end | assumption]
   | |- X _ (set s_invs _ (set s_scqs (fun l => l ++ _) _)) => apply X_newscq; assumption
-  | |- X _ (upd_worker _ _ _) => apply X_upd_worker_keep; [intros ?; cbn; split; [reflexivity | let H := fresh in intro H; first [exact H | discriminate H]] | assumption]
+  | |- X _ (upd_worker _ _ _) => apply X_upd_worker_keep; [intros ?; reflexivity | assumption]
   | |- X _ (upd_scq _ _ _) => apply X_upd_scq_keep; [let q := fresh "q" in intros q; first [reflexivity | (destruct (existsb _ (q_drains q)); reflexivity)] | assumption]
   | |- _ => (eapply X_frame; [ | | | | eassumption]); frame_eq
   end.
